@@ -1458,8 +1458,12 @@ def _fixed_array_root(an, v):
             tk = tk["to"]
         if tk is not None and tk["k"] == "array":
             return True
-        if v[0] in ("slice", "slicefrom", "sliceto", "unsize", "ref", "deref", "init", "ptrcast") and len(v) > 1:
+        if v[0] in ("slice", "slicefrom", "sliceto", "unsize", "ref", "deref", "init", "ptrcast", "proj") and len(v) > 1:
             v = v[1]
+            continue
+        if v[0] == "call" and v[1].startswith("core::slice::") and v[1].rsplit("::", 1)[-1] in (
+                "split_at", "split_at_mut", "split_first", "split_last", "first_chunk", "last_chunk", "as_slice", "iter") and v[2]:
+            v = v[2][0]         # parts of a slice are no longer than the slice
             continue
         return False
     return False
